@@ -814,6 +814,9 @@ def projects(ctx):
             specs += gen_shared_kwargs_group(rng, f"g{i}")
         if i % 3 == 0:
             specs += gen_shared_container_group(rng, f"h{i}")
+        opt = rng.choice(["default", "default", "pdb", "pdb", "trace"])
+        for sp in specs:
+            sp["build"] = opt
         projs.append(specs)
     for _ in range(ctx.scale(6, 40)):
         tid += 1
@@ -825,6 +828,31 @@ def projects(ctx):
 # campaign
 # ---------------------------------------------------------------------------------------------
 
+PDB_MODULE = '''
+"""non-interactive debugger class for builds with trace=True (handed to pytask as pdbcls): every prompt is answered with `continue`"""
+import io
+import pdb
+
+
+class ContPdb(pdb.Pdb):
+    def __init__(self, *a, **k):
+        k.pop("stdin", None)
+        k.pop("stdout", None)
+        super().__init__(*a, stdin=io.StringIO("continue\\n" * 200), stdout=io.StringIO(), **k)
+        self.use_rawinput = False
+'''
+
+# how pytask invokes the task function depends on these build options (debugging.py wraps `task.function`): the wrappers must hand
+# the arguments in and the return value out unchanged. pdb=True: post-mortem wrapper (no generated task raises inside the wrapper's
+# reach except the declared-misfit cases, whose exception is raised after the body returned); trace=True: `Pdb.runcall`, made
+# non-interactive through pdbcls.
+BUILD_OPTIONS = {"default": {}, "pdb": {"pdb": True}, "trace": {"trace": True, "pdbcls": ["c07pdb", "ContPdb"]}}
+
+
+def build_kw(specs) -> dict:
+    return dict(BUILD_OPTIONS[(specs[0].get("build") if specs else None) or "default"])
+
+
 def run_projects(projs, nservers=4):
     pool = builder.Pool(list(range(1, nservers + 1)))
     try:
@@ -833,7 +861,8 @@ def run_projects(projs, nservers=4):
             root = common.scratch_dir("c07")
             try:
                 write_project(root, specs)
-                res = pool.pick(i).build(root)
+                (root / "c07pdb.py").write_text(PDB_MODULE)
+                res = pool.pick(i).build(root, kw=build_kw(specs))
                 return observe(root, specs, res), res
             finally:
                 shutil.rmtree(root, ignore_errors=True)
@@ -865,6 +894,7 @@ def check_projects(ctx, projs, results):
                 ctx.dist["e2e:return:" + ("fits" if fits(ret_tree(spec), spec["out"]) else "misfit")] += 1
             if ill_formed(spec):
                 ctx.dist["e2e:ill-formed"] += 1
+            ctx.dist["e2e:build-" + (spec.get("build") or "default")] += 1
             if spec.get("marks"):
                 ctx.dist["e2e:marks-" + spec["marks"]] += 1
             for tag in ("gen", "kwargs_var", "shared", "fname"):
